@@ -190,6 +190,9 @@ func genItems(rng *rand.Rand, v6 bool) []item {
 				x := m.TransactionID
 				lastXid6, lastFrom = &x, it.from
 				m.AddOption(&dhcpv6.OptionGeneric{OptionCode: 65001, OptionData: nb[:]})
+				if rng.IntN(8) == 0 { // datagrams of every size up to the read size, not only up to a link MTU (jumbo frames, loopback)
+					m.AddOption(&dhcpv6.OptionGeneric{OptionCode: 65007, OptionData: gen4.Bytes(rng, []int{1400, 1490, 1600, 2900, 3100, 3800}[rng.IntN(6)])})
+				}
 				b := m.ToBytes()
 				for k := rng.IntN(5); k > 0; k-- { // relay nesting 0..4
 					h := make([]byte, 34)
@@ -251,7 +254,13 @@ func genItems(rng *rand.Rand, v6 bool) []item {
 				x := p.TransactionID
 				lastXid4, lastFrom = &x, it.from
 				p.Options[224] = nb[:]
+				if rng.IntN(8) == 0 {
+					p.Options[225] = gen4.Bytes(rng, []int{1200, 1400, 1700, 2900, 3500}[rng.IntN(5)])
+				}
 				for c, v := range p.Options {
+					if c == 225 {
+						continue
+					}
 					if len(v) > 300 {
 						p.Options[c] = v[:300]
 					}
@@ -296,7 +305,7 @@ func genItems(rng *rand.Rand, v6 bool) []item {
 				}
 			}
 		}
-		if len(it.b) > 1500 { // larger than a link MTU: would be cut by the servers' 4096-byte reads, which is not what C14 is about
+		if len(it.b) > 4096 { // larger than the servers' 4096-octet reads: cut by the read itself, which is not what C14 is about
 			i--
 			continue
 		}
